@@ -103,15 +103,18 @@ func main() {
 		return
 	}
 	r := mc.Start("C11")
-	// bounds: (full alphabet, core alphabet) history length per initial state
-	fullLen, coreLen := mc.Pick(r, 2, 3), mc.Pick(r, 3, 4)
+	// bounds: history length over (full alphabet, core alphabet, deep = core without the two
+	// string operations), per initial state
+	fullLen, coreLen, deepLen := mc.Pick(r, 2, 3), mc.Pick(r, 3, 3), mc.Pick(r, 3, 4)
 	fullSeeded, coreSeeded := mc.Pick(r, 2, 2), mc.Pick(r, 2, 3)
 	casesPerProgram := mc.Pick(r, 160, 320) // bigger programs amortise the per-program costs (runtime compile, two 64 MiB instances)
-	r.Rule("every history of <= full_len ownership operations over the full alphabet (44 operations: the 21 core operations plus identity / no-op / empty-operand variants, string and slice aliases, swaps, field addresses) and every history of <= core_len operations over the core alphabet, from two initial states (all zero; seeded with nodes, a 2-element slice, a map entry and an aliased heap string); one case function per history with an observation of all reachable data after every operation; each case runs on the real compiled program with instrumented runtime (monitor: live set + mirrored reference counts) without and with 0xA5 poisoning at free, and is compared with Go; distinct = distinct Go outputs")
+	r.Rule("every history of <= full_len ownership operations over the full alphabet (44 operations: the 21 core operations plus identity / no-op / empty-operand variants, string and slice aliases, swaps, field addresses) and every history of <= core_len operations over the core alphabet (<= deep_len over the core alphabet without its two string operations), from two initial states (all zero; seeded with nodes, a 2-element slice, a map entry and an aliased heap string); one case function per history with an observation of all reachable data after every operation; each case runs on the real compiled program with instrumented runtime (monitor: live set + mirrored reference counts) without and with 0xA5 poisoning at free, and is compared with Go; distinct = distinct Go outputs")
 	r.Bound("ops_full", len(progs.OwnOps))
 	r.Bound("ops_core", progs.OwnCoreOps)
 	r.Bound("zero_init_full_len", fullLen)
 	r.Bound("zero_init_core_len", coreLen)
+	r.Bound("zero_init_deep_len", deepLen)
+	r.Bound("ops_deep", len(progs.OwnDeepOps()))
 	r.Bound("seeded_init_full_len", fullSeeded)
 	r.Bound("seeded_init_core_len", coreSeeded)
 	r.Assume("every operation is guarded so that Go never panics (p.next only when p != nil, reslice only when len > 0, ...): every history is in the domain")
@@ -120,8 +123,8 @@ func main() {
 	r.Assume("reference cycles may leak (reference counting); leaking is not a C11 violation")
 	r.Assume("the allocator itself (C10) is trusted to read/write only block headers: poisoning covers exactly the bytes requested from malloc")
 
-	hs := progs.OwnSpace(fullLen, coreLen, false)
-	hs = append(hs, progs.OwnSpace(fullSeeded, coreSeeded, true)...)
+	hs := progs.OwnSpace(fullLen, coreLen, deepLen, false)
+	hs = append(hs, progs.OwnSpace(fullSeeded, coreSeeded, 0, true)...)
 	if f := os.Getenv("C11_OPS"); f != "" { // debugging / mutant demonstration: restrict the alphabet
 		hs = progs.OwnRestrict(hs, f)
 		r.Cap("alphabet restricted by C11_OPS=" + f)
@@ -132,6 +135,7 @@ func main() {
 	defer pool.Close()
 	rcmon.InstallRetire(pool)
 
+	casesPerProgram = balanced(len(hs), casesPerProgram)
 	var spans [][2]int
 	for lo := 0; lo < len(hs); lo += casesPerProgram {
 		spans = append(spans, [2]int{lo, min(lo+casesPerProgram, len(hs))})
@@ -151,7 +155,7 @@ func main() {
 		})
 	}()
 
-	rn := &rcmon.Runner{Pool: pool, Poison: []bool{false, true}, PerProgram: casesPerProgram, Expired: r.Expired,
+	rn := &rcmon.Runner{Pool: pool, Abort: true, Poison: []bool{false, true}, PerProgram: casesPerProgram, Expired: r.Expired,
 		Render: func(idx []int) string {
 			sel := make([]progs.OwnHistory, len(idx))
 			for k, c := range idx {
@@ -294,6 +298,17 @@ func main() {
 		r.HarnessError("vacuous: only %d distinct outputs for %d histories", r.DistinctCount(), len(hs))
 	}
 	r.Finish()
+}
+
+// balanced: the largest program size <= maxPer that splits n cases into a multiple of the worker
+// count (whole rounds, no straggler round).
+func balanced(n, maxPer int) int {
+	w := mc.NWorkers()
+	rounds := (n + w*maxPer - 1) / (w * maxPer)
+	if rounds < 1 {
+		rounds = 1
+	}
+	return max(1, (n+w*rounds-1)/(w*rounds))
 }
 
 func hasFailingSub(h progs.OwnHistory, sig string, failSig map[string]map[string]bool) bool {
